@@ -8,6 +8,7 @@ def e1meta(text):
 
 META = {
  "C01": e1meta("Every fork-join program of the harness grammar (<=3 created threads, 9 creation variants incl. attribute objects prepared from garbage storage and NULL id, return vs myth_exit, both join orders) is run under every schedule with <=2 (quick) / <=3 (thorough) deviations on 1-3 workers; the oracle counts invocations, compares joined values and a buffer written by the child. A coverage statement, not a sample."),
+ "C03": e1meta("An assembly probe keeps per-thread patterns in all callee-saved registers and a 2 KiB stack array across every kind of switching call (yield, both creation orders, join, mutex, barrier, cond, uncond) while 2-3 probe threads interleave under all schedules with <=K deviations; the runtime also checks the ABI stack alignment at every hook, including inside switch callbacks. The coverage matrix switch-kind x resumed-on-same/other-worker must be complete or the check reports itself vacuous; thorough repeats everything on a -O2 build of the library."),
  "C04": e1meta("All interleavings with <=K deviations of 2-3 contenders doing lock/trylock/timedlock/unlock sequences on one mutex; oracle: occupancy witness, every lock call returns (deadlock verdict), EBUSY only if the mutex was busy during the call, bystander progress on 1 worker."),
  "C05": e1meta("Bounded-buffer, gate (broadcast), turnstile and stray-signal programs under all schedules with <=K deviations; oracle: determinate final counters, mutex-held witness after every wait, no thread left on a sleep queue, no deadlock verdict."),
  "C06": e1meta("N<=3 participants x <=3 rounds under all schedules with <=K deviations; oracle: arrivals == N when anybody passes, exactly one serial indicator per round, everybody returns, count word back to 0."),
@@ -16,11 +17,14 @@ META = {
  "C09": e1meta("Single-slot mailbox over myth_felock with 1-2 producers/consumers and a plain lock/unlock observer under all schedules with <=K deviations; oracle: multiset consumed == produced, status under the lock equals the waited-for value, exclusivity witness."),
  "C12": e1meta("Create/join/detach/try-join/timed-join programs with late joins, intervening creations and five stack sizes under all schedules with <=K deviations; an ownership ledger fed by the allocation/release hooks flags hand-out of something owned, double release, release of a stack the releasing worker still runs on, overlapping live stacks, and poisons released stacks/records so late legitimate-looking uses fail deterministically."),
  "C13": e1meta("Every history of <=2/3 create/reap cycles over five reap modes under all schedules with <=K deviations; oracle: at quiescence every record and stack handed out has been released exactly once, no fresh allocation after the first cycle on one worker, try-join busy only before the target finished, timed-join gives up only after its (virtual) deadline, detach leaves the target's stack data intact."),
+ "C20": {"engine": "E1 mythmc + E3 seqmc", "technique": E1_TECH + "; plus bounded exhaustive input enumeration against 128-bit reference arithmetic for the timespec helpers",
+         "note": E1_NOTE + "; the clock seam in hr_gettime makes time an environment answer (default +1 us per read, deviation +1 s)",
+         "text": "Sleep, timed-lock and timed-join programs under all schedules with <=K deviations where every clock read is a decision of the explorer; oracle: zero return of a sleep only after the requested (virtual) duration, timeout only with now > deadline, success whenever the mutex was free / the thread had finished at the first attempt, sibling progress during a sleep. Arithmetic helpers and argument validation are enumerated over all boundary pairs."},
  "C14": e1meta("1-3 concurrent callers plus a late call with four kinds of init routine under all schedules with <=K deviations; oracle: init count == 1, completed flag visible to every caller on return."),
 }
 NOT_APPLICABLE = {}
 ENGINES = [
- {"name": "E1 mythmc", "path": "engine/mythmc", "serves_properties": ["C01", "C04", "C05", "C06", "C07", "C08", "C09", "C12", "C13", "C14"],
+ {"name": "E1 mythmc", "path": "engine/mythmc", "serves_properties": ["C01", "C03", "C20", "C04", "C05", "C06", "C07", "C08", "C09", "C12", "C13", "C14"],
   "kind_free_text": "deviation-bounded stateless model checker: token-passing scheduler behind the MYTH_VERIF hooks of the real library, explorer forking one child per schedule"},
 ]
 NOTES = ("./check <id> --tier quick|thorough builds the library from /repo's working tree with -DMYTH_VERIF, runs the components listed in engine/registry.py and writes evidence/<id>.json. "
